@@ -1,4 +1,4 @@
-use super::PersisterTask;
+use super::{write_all_vectored, PersisterTask};
 use crate::streaming::batching::message_batch::RetainedMessageBatch;
 use error_set::ErrContext;
 use iggy::{
@@ -13,10 +13,7 @@ use std::{
         Arc,
     },
 };
-use tokio::{
-    fs::{File, OpenOptions},
-    io::AsyncWriteExt,
-};
+use tokio::fs::{File, OpenOptions};
 use tracing::{error, trace};
 
 /// A dedicated struct for writing to the log file.
@@ -131,9 +128,9 @@ impl SegmentLogWriter {
         if let Some(ref mut file) = self.file {
             let header = batch_to_write.header_as_bytes();
             let batch_bytes = batch_to_write.bytes;
-            let slices = [IoSlice::new(&header), IoSlice::new(&batch_bytes)];
+            let mut slices = [IoSlice::new(&header), IoSlice::new(&batch_bytes)];
 
-            file.write_vectored(&slices)
+            write_all_vectored(file, &mut slices)
                 .await
                 .with_error_context(|error| {
                     format!("Failed to log to file: {}. {error}", self.file_path)
